@@ -198,6 +198,15 @@ def check_rows(case):
                             continue
                         d = _same(full, outc, False)
                         require(d is None, "rows:container:%s:%s" % (cname, meth), "%s on the same rows held as %s: %s" % (meth, cname, d), dict(f2, container=cname))
+                    # a batch of zero rows: refused, or answered with zero rows (never with something invented)
+                    try:
+                        out0 = entry.call(est, meth, Qm[:0])
+                    except Exception:  # noqa: BLE001
+                        out0 = None
+                        labels.append("zero-row-batch-refused")
+                    if out0 is not None:
+                        require(len(np.asarray(out0)) == 0, "rows:zero-row-batch:" + meth, "%s on a batch of 0 rows returned %d rows" % (meth, len(np.asarray(out0))), f2)
+                        labels.append("zero-row-batch-answered")
                 if name in ("PiecewiseRegressor", "PiecewiseClassifier") and meth == methods[0] and case.get("process_backend"):
                     # the caller has a process-based joblib backend active (prefer="threads" is only a hint, a backend context overrides it):
                     # same answers as without it
